@@ -27,9 +27,13 @@
 (*               regularisation)                                              *)
 (*   SACLoss     sac_actor_loss                                               *)
 (*   TempLoss    sac_exploration_loss, alpha = exp(log_alpha)                 *)
+(*   ExpArg, DAlpha, EvalTempLa   the same loss as a function of its          *)
+(*               PARAMETER log_alpha = a + k ln 2 over the whole meaningful   *)
+(*               float32 range (kind "templa"): value and gradient are the    *)
+(*               linear form  c * Exp(log_alpha)  (device D3), c exact        *)
 (*   Deps / Wrt / Moved   which parameter groups an update can move           *)
 (*                                                                            *)
-(* kinds: pg a2c reinforce ac | ppo ppoupd | dpg td7 mrq | sac temp           *)
+(* kinds: pg a2c reinforce ac | ppo ppoupd | dpg td7 mrq | sac temp templa    *)
 EXTENDS Exact, FiniteSets, TLC, Json
 
 CONSTANTS EMIT,    \* TRUE: print one EMIT record per finished vector
@@ -38,6 +42,7 @@ CONSTANTS EMIT,    \* TRUE: print one EMIT record per finished vector
           LAT,     \* "full" | "small": value lattice
           DEV      \* "" or the name of a deviation (canaries):
                    \*   "pgsign" "nosg" "wrtall" "maxclip" "broadcast" "tempsign" "mindpg"
+                   \*   "tempclip": alpha = exp(clip(log_alpha, -20, 2)) ("numerically safe" parametrisation)
 
 VARIABLES stage,   \* "kind" | "par" | "rows" | "done"
           kind, n, par,
@@ -48,32 +53,49 @@ vars == <<stage, kind, n, par, rows>>
 PGKinds  == {"pg", "a2c", "reinforce", "ac"}
 PPOKinds == {"ppo", "ppoupd"}
 DetKinds == {"dpg", "td7", "mrq"}
-AllKinds == PGKinds \cup PPOKinds \cup DetKinds \cup {"sac", "temp"}
+AllKinds == PGKinds \cup PPOKinds \cup DetKinds \cup {"sac", "temp", "templa"}
 Full == LAT = "full"
 
 ----------------------------------------------------------------------------
 (* value lattices (dyadic) *)
-WV     == IF Full THEN {I(-2), Q(-1, 2), Zero, One, I(3)} ELSE {I(-2), Zero, One}      \* weights / advantages of both signs and 0
-LPV    == IF Full THEN {I(-3), I(-1), Q(-1, 2), Zero, Half} ELSE {I(-1), Q(-1, 2)}     \* log pi(a|o)
+(* full lattice: also EXTREME parameter / input values (huge weights and advantages, a saturated policy with log pi = -64, huge *)
+(* Q-values, a large temperature, a saturated tanh activation); powers of two, so float32 arithmetic stays exact          *)
+WV     == IF Full THEN {I(-4096), I(-2), Q(-1, 2), Zero, One, I(3), I(4096)} ELSE {I(-2), Zero, One}      \* weights / advantages of both signs and 0
+LPV    == IF Full THEN {I(-64), I(-3), I(-1), Q(-1, 2), Zero, Half} ELSE {I(-1), Q(-1, 2)}     \* log pi(a|o)
 RetV   == IF Full THEN {I(-1), Zero, I(2), I(3)} ELSE {I(-1), I(2)}                    \* returns / rewards
 BV     == IF Full THEN {I(-2), Zero, Half, I(3)} ELSE {Half, I(3)}                     \* baseline / value predictions
 GDV    == IF Full THEN {One, Half, Q(1, 4), Zero} ELSE {One, Q(1, 4)}                  \* gamma^t
 GV     == IF Full THEN {Zero, Q(1, 4), Half, One} ELSE {Half, One}                     \* gamma
 RatioV == {Q(1, 4), Q(3, 4), One, Q(5, 4), I(2)}                                       \* pi / pi_old
-AdvV   == IF Full THEN {I(-2), Q(-1, 2), Zero, One, I(3)} ELSE {I(-2), Zero, Half}
+AdvV   == IF Full THEN {I(-2), Q(-1, 2), Zero, One, I(3)} ELSE {I(-2), Zero, Half}          \* (PPO: 32-bit rationals with the 1/100 entropy coefficient leave no room for huge advantages)
 EpsV   == {Q(1, 4), Half}                                                              \* clip range
 ValC   == {<<I(2), Half, Zero>>, <<I(-1), I(3), Zero>>, <<Zero, Zero, One>>}           \* curated (return, value, entropy)
 EntV   == {Zero, One, I(-2)}
 QV     == IF Full THEN {I(-2), Zero, Half, I(3)} ELSE {I(-2), Half, I(3)}              \* Q(o, pi(o))
+QHuge  == IF Full THEN {I(-4096), I(4096)} ELSE {}                                      \* huge Q-values (dpg, sac)
 SV     == {I(-2), Zero, Half, One}                                                     \* dQ/da (powers of two or 0)
 ActV   == {Zero, Half, I(-1)}                                                          \* pre-tanh activation (MR.Q)
+ActSat == {I(-20), I(20)}                                                              \* saturated: tanh' = 0 in float32 and float64
 AwV    == IF Full THEN {Zero, Q(1, 4), One} ELSE {Zero, Q(1, 4)}                       \* activation weight
 AlphaV == {Zero, Half, One}                                                            \* entropy coefficient (SAC actor)
+AlphaHuge == {I(1024)}
 CV     == {Zero, Half, I(-1)}                                                          \* d log pi / d action of the stub policy
 TAlphaV == {Half, One, I(2)}                                                           \* alpha = exp(log_alpha)
 TgtV   == {I(-2), I(-1), Zero, One}                                                    \* target entropy
 TLpV   == {I(-3), I(-1), Zero, Half, I(2)}
 DefaultClip == Q(1, 5)
+
+(* the temperature PARAMETER: log_alpha = a + k ln 2, a rational, k integer (device D3: ln 2 is the named constant, so that     *)
+(* alpha = exp(log_alpha) = 2^k exactly when a = 0).  The lattice spans the float32 range in which alpha and the loss are      *)
+(* normal numbers: the default initialisation 0, moderate values, and large positive / large negative values.                 *)
+La(a, k) == [a |-> a, k |-> k]
+LaDyS == {Zero, Q(5, 2), I(4), I(10), I(50), I(-12), I(-21), I(-30), I(-60)}
+LaKS  == {3, 72, -30, -86}
+LaDyF == LaDyS \cup {Half, Q(-1, 2), Q(3, 2), I(2), I(-3), I(-20), I(80), I(-80)}
+LaKF  == LaKS \cup {1, -1, 14, -17, -29, -43, 115, -115}
+LaSmall == {La(a, 0) : a \in LaDyS} \cup {La(Zero, k) : k \in LaKS}
+LaFull  == {La(a, 0) : a \in LaDyF} \cup {La(Zero, k) : k \in LaKF} \cup {La(Half, 10), La(Q(-1, 4), -40)}
+LaV == IF Full THEN LaFull ELSE LaSmall
 
 ParSet(k) ==
   CASE k \in {"pg", "a2c"} -> {[none |-> TRUE]}
@@ -89,10 +111,11 @@ ParSet(k) ==
                                 [s1 |-> Half, s2 |-> Zero, aw |-> Q(1, 4), scale |-> I(2)],
                                 [s1 |-> Zero, s2 |-> Zero, aw |-> One, scale |-> One],
                                 [s1 |-> One, s2 |-> I(-2), aw |-> Q(1, 4), scale |-> I(2)]}
-    [] k = "sac"       -> IF Full THEN [alpha : AlphaV, s1 : SV, s2 : SV, c : CV]
+    [] k = "sac"       -> IF Full THEN [alpha : AlphaV \cup AlphaHuge, s1 : SV, s2 : SV, c : CV]
                           ELSE {[alpha |-> a, s1 |-> s[1], s2 |-> s[2], c |-> c] :
                                   a \in AlphaV, s \in {<<I(-2), One>>, <<One, Zero>>}, c \in {Zero, Half}}
     [] k = "temp"      -> [alpha : TAlphaV, tgt : TgtV]
+    [] k = "templa"    -> [la : LaV, tgt : IF Full THEN TgtV ELSE {I(-2), Zero, One}]
 
 RowSet(k) ==
   CASE k \in {"pg", "a2c"} -> [w : WV, lp : LPV]
@@ -101,11 +124,12 @@ RowSet(k) ==
     [] k = "ppo"       -> IF Full THEN [ratio : RatioV, adv : AdvV, ret : RetV, v : BV, ent : EntV]
                           ELSE {[ratio |-> r, adv |-> a, ret |-> c[1], v |-> c[2], ent |-> c[3]] : r \in RatioV, a \in AdvV, c \in ValC}
     [] k = "ppoupd"    -> [r : RetV, v : BV, ent : {Zero, One}]
-    [] k = "dpg"       -> [q : QV]
+    [] k = "dpg"       -> [q : QV \cup QHuge]
     [] k = "td7"       -> [q1 : QV, q2 : QV]
-    [] k = "mrq"       -> [q1 : IF Full THEN QV ELSE {Half, I(3)}, q2 : IF Full THEN QV ELSE {Half, I(-2)}, act : ActV]
-    [] k = "sac"       -> [lp : IF Full THEN LPV ELSE {I(-1), I(2)}, q1 : IF Full THEN QV ELSE {Half, I(3)}, q2 : IF Full THEN QV ELSE {Half, I(-2)}]
+    [] k = "mrq"       -> [q1 : IF Full THEN QV ELSE {Half, I(3)}, q2 : IF Full THEN QV ELSE {Half, I(-2)}, act : IF Full THEN ActV \cup ActSat ELSE ActV]
+    [] k = "sac"       -> [lp : IF Full THEN LPV ELSE {I(-1), I(2)}, q1 : IF Full THEN QV \cup QHuge ELSE {Half, I(3)}, q2 : IF Full THEN QV \cup QHuge ELSE {Half, I(-2)}]
     [] k = "temp"      -> [lp : TLpV]
+    [] k = "templa"    -> [lp : IF Full THEN TLpV ELSE {I(-3), Zero, I(2)}]
 
 ----------------------------------------------------------------------------
 Idx(rws) == 1..Len(rws)
@@ -260,12 +284,69 @@ EvalTemp(p, rws) ==
       mag |-> QMaxAbs([i \in Idx(rws) |-> QMul(p.alpha, QAdd(QAbs(rws[i].lp), QAbs(p.tgt)))]),
       inexact |-> IF p.alpha = One THEN 0 ELSE 1]
 
+----------------------------------------------------------------------------
+(* the temperature loss as a function of its PARAMETER log_alpha (EntropyCoefficient: alpha = exp(log_alpha)), at every value  *)
+(* of the parameter.  Order of parameter values is decided with a rational bracket of ln 2 (fixed point, unit 1/U).            *)
+U     == 65536
+Ln2Dn == 45426                                       \* 45426 / 65536 < ln 2 < 45427 / 65536
+Ln2Up == 45427
+FlQ(q) == (q[1] * U) \div q[2]                       \* floor(q * U)   (\div floors)
+ClQ(q) == 0 - ((0 - q[1] * U) \div q[2])             \* ceiling(q * U)
+LaDn(la) == FlQ(la.a) + (IF la.k >= 0 THEN la.k * Ln2Dn ELSE la.k * Ln2Up)
+LaUp(la) == ClQ(la.a) + (IF la.k >= 0 THEN la.k * Ln2Up ELSE la.k * Ln2Dn)
+LaLt(x, y) == LaUp(x) < LaDn(y)                      \* x < y as real numbers (decided)
+IMin2(a, b) == IF a < b THEN a ELSE b
+IMax2(a, b) == IF a < b THEN b ELSE a
+(* the "numerically safe" range of the named deviation *)
+ClipLo == I(-20)
+ClipHi == I(2)
+Outside(la) == LaLt(La(ClipHi, 0), la) \/ LaLt(la, La(ClipLo, 0))
+(* the lattice is decidable: any two parameter values are equal or ordered, and each one is a clip bound or on a known side of it *)
+ASSUME /\ LaSmall \subseteq LaFull
+       /\ \A x, y \in LaFull : x = y \/ LaLt(x, y) \/ LaLt(y, x)
+       /\ \A x \in LaFull : \A b \in {ClipLo, ClipHi} : x = La(b, 0) \/ LaLt(x, La(b, 0)) \/ LaLt(La(b, 0), x)
+       /\ FlQ(Q(-7, 2)) = 0 - 229376 /\ ClQ(Q(-7, 2)) = 0 - 229376 /\ (0 - 7) \div 2 = 0 - 4
+(* alpha = Exp(ExpArg(log_alpha)): the documented parametrisation is the identity; bracket <<lower, upper>> in units of 1/U *)
+ExpArg(la) == IF DEV = "tempclip" THEN <<IMax2(FlQ(ClipLo), IMin2(LaDn(la), ClQ(ClipHi))), IMax2(FlQ(ClipLo), IMin2(LaUp(la), ClQ(ClipHi)))>>
+              ELSE <<LaDn(la), LaUp(la)>>
+(* d ExpArg / d log_alpha *)
+DAlpha(la) == IF DEV = "tempclip" /\ Outside(la) THEN Zero ELSE One
+(* Exp is strictly increasing: alpha(x) < alpha(y) iff the arguments of Exp are ordered *)
+AlphaLt(x, y) == ExpArg(x)[2] < ExpArg(y)[1]
+(* float32 ordinals (device D4): 2^e (1 + m / 2^23) has ordinal (e + 127) 2^23 + m; ordinal + 1 is the next float32 *)
+TwoP23 == 8388608
+OrdOf(e, m) == (e + 127) * TwoP23 + m
+(* log_alpha = k ln 2: alpha = 2^k.  The float32 parameter is k ln 2 rounded (half an ulp of a number < |k|: relative error of alpha *)
+(* < |k| 2^-24, i.e. < |k| float32 steps of the finer binade below 2^k), the float32 exponential adds at most ExpUlp steps           *)
+ExpUlp == 2
+AlphaOrd(la) == IF la.a = Zero /\ la.k >= 0 - 126 /\ la.k <= 126
+                THEN <<OrdOf(la.k, 0) - (Abs(la.k) + ExpUlp), OrdOf(la.k, 0) + (Abs(la.k) + ExpUlp)>> ELSE <<>>
+(* a step size 2^LrExp that makes the step of log_alpha visible at every parameter value: 1 <= 2^LrExp * alpha < 2 (up to the bracket) *)
+LrExp(la) == 0 - (LaDn(la) \div Ln2Dn)
+(* sac_exploration_loss = mean(-alpha (log pi + target)) = c * Exp(ExpArg(log_alpha)) with the exact coefficient c; its derivative  *)
+(* w.r.t. log_alpha is the SAME linear form times d ExpArg / d log_alpha (Exp' = Exp)                                             *)
+EvalTempLa(p, rws) ==
+  LET s  == MeanOver(rws, LAMBDA i : QAdd(rws[i].lp, p.tgt))
+      c  == IF DEV = "tempsign" THEN s ELSE QNeg(s)
+      gc == QMul(c, DAlpha(p.la))
+  IN [loss |-> c,                                                      \* COEFFICIENT of Exp(ExpArg(log_alpha)) in the loss
+      galpha |-> gc,                                                   \* COEFFICIENT of Exp(ExpArg(log_alpha)) in d loss / d log_alpha
+      dir |-> Dir(gc),
+      est |-> EntropyEstimate(rws),
+      cmp |-> QSign(QSub(p.tgt, EntropyEstimate(rws))),
+      rank |-> Cardinality({x \in LaFull : LaLt(x, p.la)}),            \* position of the parameter value in the ordered lattice
+      arank |-> Cardinality({x \in LaFull : AlphaLt(x, p.la)}),        \* position of alpha: the same (AlphaMonotone)
+      aord |-> AlphaOrd(p.la), expulp |-> ExpUlp, lrexp |-> LrExp(p.la),
+      mag |-> QMaxAbs([i \in Idx(rws) |-> QAdd(QAbs(rws[i].lp), QAbs(p.tgt))]),     \* times alpha
+      inexact |-> 1]
+
 Eval(k, p, rws) ==
   CASE k \in PGKinds  -> EvalPG(k, p, rws)
     [] k \in PPOKinds -> EvalPPO(k, p, rws)
     [] k \in DetKinds -> EvalDet(k, p, rws)
     [] k = "sac"      -> EvalSAC(p, rws)
     [] k = "temp"     -> EvalTemp(p, rws)
+    [] k = "templa"   -> EvalTempLa(p, rws)
 
 ----------------------------------------------------------------------------
 (* differentiable dependencies: parameter groups; "computed before the differentiated function is entered" and *)
@@ -279,7 +360,7 @@ Groups(k) ==
     [] k = "td7" -> {"actor", "critic", "embedding"}
     [] k = "mrq" -> {"actor", "critic", "encoder"}
     [] k = "sac" -> {"actor", "critic"}
-    [] k = "temp" -> {"alpha", "actor"}
+    [] k \in {"temp", "templa"} -> {"alpha", "actor"}
 (* what weights / advantages / returns / old log-probabilities are computed from *)
 ConstDeps(k) ==
   CASE k \in {"reinforce", "ac"} -> {"value_function"}
@@ -290,9 +371,9 @@ ObjDeps(k) == IF k \in PGKinds THEN {"actor"} ELSE Groups(k)
 Deps(k) == ObjDeps(k) \cup SG(ConstDeps(k))
 (* the groups the update differentiates with respect to, and moves *)
 Wrt(k) == IF DEV = "wrtall" THEN Groups(k)
-          ELSE CASE k \in PPOKinds -> {"actor", "critic"} [] k = "temp" -> {"alpha"} [] OTHER -> {"actor"}
+          ELSE CASE k \in PPOKinds -> {"actor", "critic"} [] k \in {"temp", "templa"} -> {"alpha"} [] OTHER -> {"actor"}
 Moved(k) == Deps(k) \cap Wrt(k)
-Intended(k) == CASE k \in PPOKinds -> {"actor", "critic"} [] k = "temp" -> {"alpha"} [] OTHER -> {"actor"}
+Intended(k) == CASE k \in PPOKinds -> {"actor", "critic"} [] k \in {"temp", "templa"} -> {"alpha"} [] OTHER -> {"actor"}
 ZeroGroups(k) == Groups(k) \ Deps(k)        \* exactly zero gradient of the objective (function level)
 Untouched(k)  == Groups(k) \ Moved(k)       \* parameters an update step leaves bit-identical
 
@@ -413,7 +494,7 @@ PermutationInvariant ==
   (Done /\ n >= 2) =>
     LET e == E(kind, rows)  a == E(kind, Swap(rows))
     IN /\ a.loss = e.loss
-       /\ (kind # "temp" => Swap(a.g) = e.g)
+       /\ (kind \notin {"temp", "templa"} => Swap(a.g) = e.g)
 
 (* deterministic policy gradient / SAC: the loss falls when the value of the policy's action rises, sample by sample, *)
 (* at the rate 1/N; TD7 uses the MEAN of the two critics, MR.Q and SAC the smaller one                               *)
@@ -461,4 +542,20 @@ TempDirection ==
        /\ (e.dir = "up" <=> e.cmp = 1) /\ (e.dir = "down" <=> e.cmp = -1) /\ (e.dir = "stay" <=> e.cmp = 0)
        \* the derivative w.r.t. log_alpha is alpha times the derivative w.r.t. alpha (central difference in alpha)
        /\ e.galpha = QMul(par.alpha, CentralDiff(TempLossAt(QAdd(par.alpha, H), par, rows), TempLossAt(QSub(par.alpha, H), par, rows)))
+
+(* the same clause at EVERY value of the parameter log_alpha: the gradient w.r.t. log_alpha is non-zero with the sign of           *)
+(* (estimate - target) whenever the two differ, it is the same linear form as the loss (Exp' = Exp), and neither depends on where *)
+(* in the float range the parameter lies                                                                                          *)
+TempLaDirection ==
+  (Done /\ kind = "templa") =>
+    LET e == E(kind, rows)
+    IN /\ (QSign(e.galpha) < 0 <=> QLt(EntropyEstimate(rows), par.tgt))
+       /\ (QSign(e.galpha) = 0 <=> EntropyEstimate(rows) = par.tgt)
+       /\ (e.dir = "up" <=> e.cmp = 1) /\ (e.dir = "down" <=> e.cmp = -1) /\ (e.dir = "stay" <=> e.cmp = 0)
+       /\ e.galpha = e.loss
+       /\ e.loss = QNeg(QAdd(QNeg(e.est), par.tgt))                            \* = estimate - target
+       /\ \A x \in LaV : LET f == Eval(kind, [par EXCEPT !.la = x], rows)
+                          IN f.dir = e.dir /\ f.galpha = e.galpha /\ f.loss = e.loss
+(* alpha is strictly increasing in log_alpha (order predicate; the binding states it on float32 ordinals) *)
+AlphaMonotone == stage = "kind" => \A x, y \in LaV : LaLt(x, y) => AlphaLt(x, y)
 =============================================================================
